@@ -250,6 +250,9 @@ pub fn gen_program(
     let mut w_eatt: BTreeSet<EdgeId> = BTreeSet::new();
     let mut deleted_nodes: BTreeSet<NodeId> = BTreeSet::new();
     let mut bucket_nodes: BTreeSet<NodeId> = BTreeSet::new(); // sources whose adjacency is written
+    // nodes that an edge written by THIS program starts or ends at: deleting one of them later in
+    // the same program would leave a dangling edge (referential integrity is kept by construction)
+    let mut new_endpoints: BTreeSet<NodeId> = BTreeSet::new();
     let n_writes = rng.range_usize(1, pp.max_writes.max(1));
     let mut attempts = 0;
     let mut written = 0;
@@ -301,7 +304,7 @@ pub fn gen_program(
             }
             5 if pp.allow_delete_node => {
                 let n = *rng.pick(&nodes);
-                if Some(n) == inst_root || is_portal_owner_node(st, w, n) || w_nodes.contains(&n) || w_natt.contains(&n) {
+                if Some(n) == inst_root || is_portal_owner_node(st, w, n) || w_nodes.contains(&n) || w_natt.contains(&n) || new_endpoints.contains(&n) || bucket_nodes.contains(&n) {
                     continue;
                 }
                 let inc = st.incident_edges(w, n);
@@ -332,6 +335,8 @@ pub fn gen_program(
                 let e = fresh_edge(rng);
                 w_edges.insert(e);
                 bucket_nodes.insert(from);
+                new_endpoints.insert(from);
+                new_endpoints.insert(to);
                 let et = edge_types();
                 ops.push(Mop::ReadNode(to));
                 ops.push(Mop::UpsertEdge { edge: e, from, to, tys: [*rng.pick(&et), *rng.pick(&et)], old_from: None });
@@ -362,6 +367,8 @@ pub fn gen_program(
                 }
                 w_edges.insert(e);
                 bucket_nodes.insert(nf);
+                new_endpoints.insert(nf);
+                new_endpoints.insert(nt_);
                 if reparent {
                     bucket_nodes.insert(f);
                 }
@@ -398,7 +405,7 @@ pub fn gen_program(
                     continue;
                 }
                 let mut delete_old_from = None;
-                if pp.allow_delete_node && nf != f && nt_ != f && rng.chance(1, 2) && Some(f) != inst_root && !is_portal_owner_node(st, w, f) && !w_nodes.contains(&f) && !w_natt.contains(&f) {
+                if pp.allow_delete_node && nf != f && nt_ != f && rng.chance(1, 2) && Some(f) != inst_root && !is_portal_owner_node(st, w, f) && !w_nodes.contains(&f) && !w_natt.contains(&f) && !new_endpoints.contains(&f) {
                     let inc: Vec<(EdgeId, NodeId, NodeId)> = st.incident_edges(w, f).into_iter().filter(|(e2, _, _)| *e2 != e).collect();
                     let blocked = inc.iter().any(|(e2, f2, t2)| {
                         is_portal_owner_edge(st, w, *e2) || w_edges.contains(e2) || w_eatt.contains(e2) || bucket_nodes.contains(f2) || deleted_nodes.contains(f2) || deleted_nodes.contains(t2) || *f2 == nf || *t2 == nf
@@ -419,6 +426,8 @@ pub fn gen_program(
                 w_eatt.insert(e);
                 bucket_nodes.insert(f);
                 bucket_nodes.insert(nf);
+                new_endpoints.insert(nf);
+                new_endpoints.insert(nt_);
                 let et = edge_types();
                 ops.push(Mop::ReadNode(nt_));
                 ops.push(Mop::RecreateEdge { edge: e, old_from: f, new_from: nf, to: nt_, tys: [*rng.pick(&et), *rng.pick(&et)], restore_att: rng.chance(2, 3), delete_old_from });
